@@ -21,6 +21,7 @@ Normal forms
     ('reject', T) ('fallthrough',) ('unknown', why)
 """
 import ast
+import re
 
 INF = ('c', 'inf')
 NINF = ('c', '-inf')
@@ -70,6 +71,9 @@ def neg(e):
         return ('c', repr(-v if v != 0 else 0.0))
     if e[0] == 'neg':
         return e[1]
+    if e[0] == 'sub' and len(e) == 3:
+        # -(a - b) is b - a, exactly (rounding is symmetric)
+        return ('sub', e[2], e[1])
     return ('neg', e)
 
 
@@ -243,8 +247,50 @@ class Scalar(object):
                     return self.env[k]
             raise Unknown('attribute %s' % ast.unparse(n))
         if isinstance(n, ast.IfExp):
+            g = self._guarded_neighbour(n)
+            if g is not None:
+                return g
+            # `a if a > b else b` is max(a, b) (min for <): the selection written out
+            t = n.test
+            if isinstance(t, ast.Compare) and len(t.ops) == 1 and isinstance(t.ops[0], (ast.Gt, ast.GtE, ast.Lt, ast.LtE)):
+                l, r = self.ev(t.left), self.ev(t.comparators[0])
+                bv, ov = self.ev(n.body), self.ev(n.orelse)
+                if l != r and {repr(bv), repr(ov)} == {repr(l), repr(r)}:
+                    greater = isinstance(t.ops[0], (ast.Gt, ast.GtE))
+                    return mk('max' if (bv == l) == greater else 'min', [l, r])
             raise Unknown('conditional expression')
         raise Unknown(type(n).__name__)
+
+
+def _guarded_neighbour(self, n):
+    """`L[i - 1] if i > 0 else c`  ->  L shifted by -1 with fill c;   `L[i + 1] if i < len(L) - 1 else c`  ->  shifted by +1"""
+    test = ast.unparse(n.test).replace(' ', '')
+    for body, other, positive in ((n.body, n.orelse, True), (n.orelse, n.body, False)):
+        c = const_of(other)
+        if c is None or not (isinstance(body, ast.Subscript) and isinstance(body.value, ast.Name) and isinstance(body.slice, ast.BinOp)
+                             and isinstance(body.slice.left, ast.Name) and self.env.get(body.slice.left.id) == ('IDX',)
+                             and isinstance(body.slice.right, ast.Constant) and body.slice.right.value == 1):
+            continue
+        base = self.env.get(body.value.id)
+        if base is None or base[0] != 'LIST':
+            continue
+        i, L = body.slice.left.id, body.value.id
+        if isinstance(body.slice.op, ast.Sub):
+            inside = {'%s>0' % i, '%s>=1' % i, '0<%s' % i, '%s!=0' % i, '1<=%s' % i}
+            outside = {'%s==0' % i, '%s<1' % i, '%s<=0' % i, '0==%s' % i}
+            d = -1
+        elif isinstance(body.slice.op, ast.Add):
+            inside = {'%s<len(%s)-1' % (i, L), '%s+1<len(%s)' % (i, L), '%s<=len(%s)-2' % (i, L), '%s!=len(%s)-1' % (i, L), '%s+1!=len(%s)' % (i, L)}
+            outside = {'%s==len(%s)-1' % (i, L), '%s>=len(%s)-1' % (i, L), '%s+1>=len(%s)' % (i, L), '%s+1==len(%s)' % (i, L)}
+            d = +1
+        else:
+            continue
+        if test in (inside if positive else outside):
+            return shift(base[1], d, c)
+    return None
+
+
+Scalar._guarded_neighbour = _guarded_neighbour
 
 
 # --------------------------------------------------------------------------------------------- comparison tables
@@ -253,6 +299,18 @@ def comparison_key(test):
     tests = test.values if isinstance(test, ast.BoolOp) and isinstance(test.op, ast.Or) else [test]
     keys = []
     for t in tests:
+        if isinstance(t, ast.Compare) and len(t.ops) == 1 and isinstance(t.ops[0], ast.In) and isinstance(t.comparators[0], (ast.Tuple, ast.List, ast.Set)) \
+                and t.comparators[0].elts:
+            # `<x>.value in (Op.A.value, Op.B.value)`
+            got = []
+            for side in t.comparators[0].elts:
+                if isinstance(side, ast.Attribute) and side.attr == 'value' and isinstance(side.value, ast.Attribute) \
+                        and isinstance(side.value.value, ast.Name) and side.value.value.id.endswith('ComparisonOperator'):
+                    got.append(side.value.attr)
+                else:
+                    return None
+            keys += got
+            continue
         if not (isinstance(t, ast.Compare) and len(t.ops) == 1 and isinstance(t.ops[0], ast.Eq)):
             return None
         for side in (t.comparators[0], t.left):
@@ -290,7 +348,8 @@ def if_table(ifnode, env, run_branch):
         for var, val in loc.items():
             if env.get(var) is not val:
                 for k in keys:
-                    per_var.setdefault(var, {})[canon_cmp(k)] = val
+                    # the first arm that names an operator takes it; a later arm naming it again is dead code
+                    per_var.setdefault(var, {}).setdefault(canon_cmp(k), val)
     default_kind = 'none'
     if default:
         if any(isinstance(s, ast.Raise) for s in default):
@@ -298,7 +357,7 @@ def if_table(ifnode, env, run_branch):
         else:
             default_kind = 'value'
     out = {}
-    nkeys = sum(len(k) for k, _ in arms)
+    nkeys = len({canon_cmp(k) for ks, _ in arms for k in ks})
     for var, tab in per_var.items():
         if len(tab) == nkeys:
             out[var] = ('table', tuple(sorted(tab.items())))
@@ -318,6 +377,10 @@ def visit_child_index(n):
 
 def _range_form(it):
     src = ast.unparse(it).replace(' ', '')
+    m = re.match(r'^range\(min\(len\((\w+)\),len\((\w+)\)\)\)$', src)
+    if m:
+        # the common prefix of two operand lists, which is what zip() walks
+        return 'fwd', m.group(1)
     if src.startswith('range(len(') and src.endswith('))') and src.count(',') == 0:
         return 'fwd', src[len('range(len('):-2]
     if src.startswith('range(len(') and src.endswith(')-1,-1,-1)'):
@@ -373,6 +436,10 @@ class OfflineDiscrete(object):
             if isinstance(v, ast.Subscript) and isinstance(v.value, ast.Name) and v.value.id == 'args' and isinstance(v.slice, ast.Constant):
                 env[tgt] = ('len',)
                 return None
+            rv = self._reversed_of(v)
+            if rv is not None:
+                env[tgt] = rv
+                return None
             lv = self.list_expr(v)
             if lv is not None:
                 env[tgt] = lv
@@ -395,16 +462,20 @@ class OfflineDiscrete(object):
                     env[f.value.id] = ('LIST', shift(obj[1], +1, const_of(a[0])))
                     return None
             if obj and obj[0] == 'SCANP' and f.attr == 'reverse' and not a:
-                if obj[1] != 'bwd-pending':
-                    raise Unknown('reverse() of a forward scan')
-                env[f.value.id] = ('SCANP', 'bwd') + obj[2:]
+                flip = {'bwd-pending': 'bwd', 'fwd': 'fwd-reversed', 'bwd': 'bwd-pending', 'fwd-reversed': 'fwd'}
+                env[f.value.id] = ('SCANP', flip[obj[1]]) + obj[2:]
                 return None
             raise Unknown('statement %s' % ast.unparse(st)[:70])
+        if isinstance(st, (ast.Import, ast.ImportFrom)):
+            return None
         if isinstance(st, ast.For):
             env.update(self.loop(st))
             return None
         if isinstance(st, ast.Return):
             v = st.value
+            rv = self._reversed_of(v)
+            if rv is not None:
+                return self.finish(rv)
             if isinstance(v, ast.Name):
                 return self.finish(env.get(v.id))
             if isinstance(v, ast.BinOp) and isinstance(v.op, ast.Mult) and isinstance(v.left, ast.List) and len(v.left.elts) == 1:
@@ -422,6 +493,23 @@ class OfflineDiscrete(object):
 
     def scalar(self, env):
         return Scalar(env)
+
+    def _reversed_of(self, v):
+        """X[::-1]  /  list(reversed(X))  with X the output of a loop that walked the trace backwards"""
+        inner = None
+        if isinstance(v, ast.Subscript) and isinstance(v.slice, ast.Slice) and v.slice.lower is None and v.slice.upper is None \
+                and v.slice.step is not None and ast.unparse(v.slice.step).replace(' ', '') == '-1' and isinstance(v.value, ast.Name):
+            inner = v.value.id
+        elif isinstance(v, ast.Call) and call_name(v.func) == 'list' and len(v.args) == 1 and not v.keywords and isinstance(v.args[0], ast.Call) \
+                and call_name(v.args[0].func) == 'reversed' and len(v.args[0].args) == 1 and isinstance(v.args[0].args[0], ast.Name):
+            inner = v.args[0].args[0].id
+        if inner is None:
+            return None
+        obj = self.env.get(inner)
+        if obj and obj[0] == 'SCANP':
+            flip = {'bwd-pending': 'bwd', 'fwd': 'fwd-reversed', 'bwd': 'bwd-pending', 'fwd-reversed': 'fwd'}
+            return ('SCANP', flip[obj[1]]) + obj[2:]
+        return None
 
     def concat_shift(self, v):
         """[c] + L[:-1]  (previous)   /   L[1:] + [c]  (next)"""
@@ -456,7 +544,10 @@ class OfflineDiscrete(object):
             return ('pointwise', v[1])
         if v[0] == 'SCANP':
             if v[1] == 'bwd-pending':
-                raise Unknown('backward loop whose output list is not reversed')
+                # the values are right, the order is not: position t holds the value of position n-1-t
+                return ('reversed', canon(('scan', 'bwd') + v[2:]))
+            if v[1] == 'fwd-reversed':
+                return ('reversed', canon(('scan', 'fwd') + v[2:]))
             return canon(('scan',) + v[1:])
         raise Unknown('returned value is %s' % v[0])
 
@@ -478,6 +569,16 @@ class OfflineDiscrete(object):
             else:
                 return None
             return ('LIST', Scalar(loc).ev(v.elt))
+        if isinstance(v, ast.Call) and call_name(v.func) == 'list' and len(v.args) == 1 and not v.keywords and isinstance(v.args[0], ast.Call) \
+                and call_name(v.args[0].func) in ('itertools.accumulate', 'accumulate'):
+            # running max / min: the forward scan whose first output is the first sample (max(x0, -inf))
+            a = v.args[0]
+            if len(a.args) == 2 and not a.keywords and isinstance(a.args[1], ast.Name) and a.args[1].id in ('min', 'max') \
+                    and isinstance(a.args[0], ast.Name) and env.get(a.args[0].id, (None,))[0] == 'LIST':
+                op = a.args[1].id
+                step = mk(op, [env[a.args[0].id][1], ('st',)])
+                return ('SCANP', 'fwd', NINF if op == 'max' else INF, step, step)
+            return None
         if isinstance(v, ast.Call) and call_name(v.func) == 'list' and len(v.args) == 1 and isinstance(v.args[0], ast.Call) \
                 and call_name(v.args[0].func) == 'map':
             m = v.args[0]
@@ -492,9 +593,24 @@ class OfflineDiscrete(object):
         loc = dict(env)
         direction = 'fwd'
         it = st.iter
-        if not isinstance(st.target, ast.Name):
+        if isinstance(st.target, ast.Tuple) and isinstance(it, ast.Call) and call_name(it.func) == 'zip' and not it.keywords \
+                and len(it.args) == len(st.target.elts) and all(isinstance(t, ast.Name) for t in st.target.elts):
+            # for l, r in zip(A, B)  /  zip(reversed(A), reversed(B)): all forward or all reversed
+            plain = [a for a in it.args if isinstance(a, ast.Name) and env.get(a.id, (None,))[0] == 'LIST']
+            rev = [a.args[0] for a in it.args if isinstance(a, ast.Call) and call_name(a.func) == 'reversed' and len(a.args) == 1
+                   and isinstance(a.args[0], ast.Name) and env.get(a.args[0].id, (None,))[0] == 'LIST']
+            if len(plain) == len(it.args):
+                srcs = plain
+            elif len(rev) == len(it.args):
+                srcs = rev
+                direction = 'bwd-pending'
+            else:
+                raise Unknown('loop over %s' % ast.unparse(it)[:50])
+            for t, a in zip(st.target.elts, srcs):
+                loc[t.id] = env[a.id][1]
+        elif not isinstance(st.target, ast.Name):
             raise Unknown('loop target')
-        if isinstance(it, ast.Name) and env.get(it.id, (None,))[0] == 'LIST':
+        elif isinstance(it, ast.Name) and env.get(it.id, (None,))[0] == 'LIST':
             loc[st.target.id] = env[it.id][1]
         elif isinstance(it, ast.Call) and call_name(it.func) == 'reversed' and len(it.args) == 1 and isinstance(it.args[0], ast.Name) \
                 and env.get(it.args[0].id, (None,))[0] == 'LIST':
@@ -522,6 +638,11 @@ class OfflineDiscrete(object):
         self.run_body(st.body, loc, state)
         if state['builder'] is None:
             raise Unknown('loop appends to no list')
+        if state.get('prepend'):
+            # insert(0, v) in a loop that walks the trace backwards leaves the values in trace order
+            if direction != 'bwd-pending':
+                raise Unknown('a forward loop that prepends builds the list in reverse')
+            direction = 'bwd'
         if env.get(state['builder'], (None,))[0] != 'BUILD':
             raise Unknown('loop appends to a list that is not a fresh []')
         res = {}
@@ -549,6 +670,14 @@ class OfflineDiscrete(object):
                     raise Unknown('two appends in one loop body')
                 state['builder'] = s.value.func.value.id
                 state['out'] = Scalar(loc).ev(s.value.args[0])
+            elif isinstance(s, ast.Expr) and isinstance(s.value, ast.Call) and isinstance(s.value.func, ast.Attribute) \
+                    and s.value.func.attr == 'insert' and isinstance(s.value.func.value, ast.Name) and len(s.value.args) == 2 \
+                    and isinstance(s.value.args[0], ast.Constant) and s.value.args[0].value == 0 and not isinstance(s.value.args[0].value, bool):
+                if state['builder'] is not None:
+                    raise Unknown('two appends in one loop body')
+                state['builder'] = s.value.func.value.id
+                state['out'] = Scalar(loc).ev(s.value.args[1])
+                state['prepend'] = True
             elif isinstance(s, ast.If):
                 if comparison_key(s.test) is not None:
                     def run_branch(body, l2):
@@ -606,15 +735,25 @@ def canon(s):
 class OnlineDiscrete(object):
     """Summarise an operation class: ``__init__`` gives the initial state, straight-line ``update`` the step."""
 
-    def __init__(self, init_node, update_node):
+    def __init__(self, init_node, update_node, reset_node=None):
         self.i = init_node
         self.u = update_node
+        self.r = reset_node
         self.partial = None
         self.table_default = None
 
     def run(self):
         env = {}
-        for st in (self.i.body if self.i is not None else []):
+        ctor = list(self.i.body) if self.i is not None else []
+        # `self.reset()` in the constructor: the reset body is the constructor's tail (unless reset is itself `self.__init__()`)
+        flat = []
+        for st in ctor:
+            if isinstance(st, ast.Expr) and isinstance(st.value, ast.Call) and ast.unparse(st.value) == 'self.reset()' and self.r is not None \
+                    and 'self.__init__' not in ast.unparse(self.r) and 'self.reset' not in ast.unparse(self.r):
+                flat += list(self.r.body)
+            else:
+                flat.append(st)
+        for st in flat:
             if isinstance(st, ast.Assign) and len(st.targets) == 1 and isinstance(st.targets[0], ast.Attribute) \
                     and isinstance(st.targets[0].value, ast.Name) and st.targets[0].value.id == 'self':
                 c = const_of(st.value)
@@ -638,9 +777,10 @@ class OnlineDiscrete(object):
         written = set()
         for st in ast.walk(up):
             if isinstance(st, ast.Assign):
-                for t in st.targets:
-                    if isinstance(t, ast.Attribute) and isinstance(t.value, ast.Name) and t.value.id == 'self':
-                        written.add('self.' + t.attr)
+                for t0 in st.targets:
+                    for t in (t0.elts if isinstance(t0, (ast.Tuple, ast.List)) else [t0]):
+                        if isinstance(t, ast.Attribute) and isinstance(t.value, ast.Name) and t.value.id == 'self':
+                            written.add('self.' + t.attr)
         states = [k for k in states if k in written]
         for k, v in env.items():
             loc[k] = ('stv', k) if k in states else v
@@ -656,14 +796,29 @@ class OnlineDiscrete(object):
         for st in up.body:
             if isinstance(st, ast.Expr) and isinstance(st.value, ast.Constant):
                 continue
-            if isinstance(st, ast.Assign) and len(st.targets) == 1:
+            if isinstance(st, ast.Assign) and len(st.targets) == 1 and isinstance(st.targets[0], ast.Tuple) and isinstance(st.value, ast.Tuple) \
+                    and len(st.targets[0].elts) == len(st.value.elts):
+                # a, self.s = self.s, x : every right-hand side is evaluated before any store
+                vals = [Scalar(loc).ev(v) for v in st.value.elts]
+                for t, v in zip(st.targets[0].elts, vals):
+                    if isinstance(t, ast.Name):
+                        loc[t.id] = v
+                    elif isinstance(t, ast.Attribute) and isinstance(t.value, ast.Name) and t.value.id == 'self':
+                        nxt['self.' + t.attr] = loc['self.' + t.attr] = v
+                    else:
+                        raise Unknown('update assignment target')
+            elif isinstance(st, ast.Assign) and len(st.targets) == 1:
                 t = st.targets[0]
                 if isinstance(t, ast.Name):
                     loc[t.id] = Scalar(loc).ev(st.value)
                 elif isinstance(t, ast.Attribute) and isinstance(t.value, ast.Name) and t.value.id == 'self':
-                    nxt['self.' + t.attr] = Scalar(loc).ev(st.value)
+                    # a later read of the attribute sees the value just stored
+                    nxt['self.' + t.attr] = loc['self.' + t.attr] = Scalar(loc).ev(st.value)
                 else:
                     raise Unknown('update assignment target')
+            elif isinstance(st, ast.If) and not st.orelse and len(st.body) == 1 and self._guarded_store(st, loc) is not None:
+                k, v = self._guarded_store(st, loc)
+                nxt[k] = loc[k] = v
             elif isinstance(st, ast.Return):
                 if st.value is None:
                     raise Unknown('bare return')
@@ -703,6 +858,31 @@ class OnlineDiscrete(object):
         return canon(('scan', 'fwd', env[k], subst(ret, f), subst(nxt.get(k, ('stv', k)), f)))
 
 
+def _guarded_store(self, st, loc):
+    """`if a > self.s: self.s = a`  ->  ('self.s', max(a, s))   (min for <): the running extremum written as a guarded store"""
+    t, b = st.test, st.body[0]
+    if not (isinstance(t, ast.Compare) and len(t.ops) == 1 and isinstance(t.ops[0], (ast.Gt, ast.GtE, ast.Lt, ast.LtE))):
+        return None
+    if not (isinstance(b, ast.Assign) and len(b.targets) == 1 and isinstance(b.targets[0], ast.Attribute) and isinstance(b.targets[0].value, ast.Name)
+            and b.targets[0].value.id == 'self'):
+        return None
+    k = 'self.' + b.targets[0].attr
+    try:
+        l, r = Scalar(loc).ev(t.left), Scalar(loc).ev(t.comparators[0])
+        v = Scalar(loc).ev(b.value)
+        old = loc.get(k)
+    except Unknown:
+        return None
+    if old is None or {repr(l), repr(r)} != {repr(v), repr(old)} or v == old:
+        return None
+    greater = isinstance(t.ops[0], (ast.Gt, ast.GtE))
+    # the stored value is the left operand of `>`  -> the larger of the two survives
+    return k, mk('max' if (v == l) == greater else 'min', [v, old])
+
+
+OnlineDiscrete._guarded_store = _guarded_store
+
+
 def summarize_offline_discrete(func_node):
     try:
         o = OfflineDiscrete(func_node)
@@ -715,11 +895,13 @@ def summarize_offline_discrete(func_node):
 def summarize_online_discrete(cls_info, ix):
     init = ix.resolve_method(cls_info, '__init__')
     up = ix.resolve_method(cls_info, 'update')
+    rs = ix.resolve_method(cls_info, 'reset')
     if up is None:
         return ('unknown', 'no update method'), None
     try:
         o = OnlineDiscrete(init.node if init is not None and init.owner.module.name.startswith('rtamt.semantics') and init.owner is cls_info else
-                           (init.node if init is not None and init.owner is not None and init.owner.name != 'AbstractOnlineOperation' else None), up.node)
+                           (init.node if init is not None and init.owner is not None and init.owner.name != 'AbstractOnlineOperation' else None), up.node,
+                           rs.node if rs is not None and rs.owner is cls_info else None)
         r = o.run()
         return r, o.partial
     except Unknown as e:
@@ -813,13 +995,22 @@ class DenseLoop(object):
         if 'enumerate' in wraps:
             if not (isinstance(tgt, ast.Tuple) and len(tgt.elts) == 2):
                 raise Unknown('enumerate target')
-            pairname = tgt.elts[1].id
+            pairname = tgt.elts[1]
             idxname = tgt.elts[0].id
         else:
-            pairname = tgt.id
+            pairname = tgt
             idxname = None
         loc = dict((k, v) for k, v in env.items() if isinstance(v, tuple) and v[0] == 'c')
-        loc[pairname] = ('PAIR', operand)
+        if isinstance(pairname, ast.Name):
+            pairname = pairname.id
+        if isinstance(pairname, str):
+            loc[pairname] = ('PAIR', operand)
+        elif isinstance(pairname, (ast.Tuple, ast.List)) and len(pairname.elts) == 2 and all(isinstance(e, ast.Name) for e in pairname.elts):
+            # for time, value in S: the sample taken apart by the loop header
+            loc[pairname.elts[0].id] = ('time',)
+            loc[pairname.elts[1].id] = operand
+        else:
+            raise Unknown('loop target %s' % ast.unparse(tgt)[:40])
         if idxname:
             loc[idxname] = ('IDX',)
         # carried state: constants assigned before the loop and reassigned inside it
